@@ -165,3 +165,49 @@ Redirect "C16_methods_month_ends.assumptions" Print Assumptions C16_methods_mont
 Redirect "C16_year_order.assumptions" Print Assumptions C16_year_order.
 Redirect "C16_mjd.assumptions" Print Assumptions C16_mjd.
 Redirect "C16_sidereal.assumptions" Print Assumptions C16_sidereal.
+
+(* ---------------------------------------------------------------------------------------------
+   Ideal (real-number) instance Rops of the same generated text: sidereal time for EVERY real
+   JDE j >= 0 against the independently transcribed IAU 1982 expression Spec.Sidereal.gmst_iau1982
+   (proofs: C16_ideal.v).  Says nothing about binary64 rounding (that is C16_sidereal above). *)
+From Coq Require Reals.
+From PyLib Require Ideal.
+From Spec Require Sidereal.
+From Proofs.C16 Require C16_ideal.
+Module IdealStatements.
+Import Reals Ideal Sidereal C16_ideal.
+Local Open Scope R_scope.
+
+(* mean_sidereal_time returns a float s in [0, 1) congruent modulo 1 to the IAU 1982 expression
+   (24110.54841 + 8640184.812866 T0 + 0.093104 T0^2 - 6.2e-6 T0^3)/86400 + 1.00273790935 (j - j0),
+   j0 = jd_0h j the preceding 0h UT instant, T0 = (j0 - 2451545)/36525.  Exception stated exactly:
+   strictly less than TOL = 1e-10 day after 0h the code returns the 0h value (off by < 1.003e-10). *)
+Theorem C16_sidereal_ideal : forall j : R, 0 <= j ->
+  exists s, Epoch_mean_sidereal_time Rops (VObj cEpoch [VFloat j]) = VFloat s /\ 0 <= s < 1 /\
+    ((j = jd_0h j \/ 1 / 10000000000 <= j - jd_0h j) -> cong1 s (gmst_iau1982 j)) /\
+    (j - jd_0h j < 1 / 10000000000 -> cong1 s (gmst_iau1982 (jd_0h j))).
+Proof. exact mean_sidereal_ideal. Qed.
+
+(* within a civil day the expression advances by exactly 1.00273790935 turns per day *)
+Theorem C16_sidereal_rate : forall j h : R, jd_0h (j + h) = jd_0h j ->
+  gmst_iau1982 (j + h) - gmst_iau1982 j = 100273790935 / 100000000000 * h.
+Proof. exact gmst_rate. Qed.
+
+(* apparent = mean + equation of the equinoxes  dpsi(deg) * 3600 * cos(eps) / 15 s, in days;
+   nutation in longitude dpsi and true obliquity eps are arbitrary (floats or Angles) *)
+Theorem C16_apparent_ideal : forall j s eps dpsi te tp : R,
+  Epoch_mean_sidereal_time Rops (VObj cEpoch [VFloat j]) = VFloat s ->
+  Epoch_apparent_sidereal_time Rops (VObj cEpoch [VFloat j]) (VFloat eps) (VFloat dpsi) =
+    VFloat (s + dpsi * 3600 * cos (eps * (PI / 180)) / 15 / 86400) /\
+  Epoch_apparent_sidereal_time Rops (VObj cEpoch [VFloat j])
+    (VObj cAngle [VFloat eps; VFloat te]) (VObj cAngle [VFloat dpsi; VFloat tp]) =
+    VFloat (s + dpsi * 3600 * cos (eps * (PI / 180)) / 15 / 86400).
+Proof.
+  intros j s eps dpsi te tp H.
+  exact (conj (apparent_sidereal_ideal j s eps dpsi H) (apparent_sidereal_ideal_angles j s eps te dpsi tp H)).
+Qed.
+End IdealStatements.
+
+Redirect "C16_sidereal_ideal.assumptions" Print Assumptions IdealStatements.C16_sidereal_ideal.
+Redirect "C16_sidereal_rate.assumptions" Print Assumptions IdealStatements.C16_sidereal_rate.
+Redirect "C16_apparent_ideal.assumptions" Print Assumptions IdealStatements.C16_apparent_ideal.
